@@ -6,7 +6,6 @@ import (
 	"crypto/sha256"
 	"encoding/json"
 	"fmt"
-	"reflect"
 	"sync"
 	"sync/atomic"
 	"unsafe"
@@ -62,6 +61,7 @@ type pworld struct {
 	pool  dyn.Pool
 	out   []*pbuf
 	free  map[unsafe.Pointer]*pbuf // shadows of pooled items (state when they were put)
+	order []unsafe.Pointer         // released buffers in the order of their puts
 	tok   int64
 	answ  []int
 	seenP map[unsafe.Pointer]bool
@@ -84,10 +84,16 @@ func newPWorld(cs c10Case) (*pworld, func()) {
 		unbind = vs.Unbind
 	} else {
 		w.ctl = poolctl.NewSeq(func(n int) int {
+			// answer a = the a-th pooled item if the pool (still) holds that many, else New.  The number of
+			// items the sync.Pool holds is the implementation's business: it may keep released buffers
+			// elsewhere (a private slot in front of the pool) without breaking the property.
+			if len(w.answ) == 0 {
+				return n // an extra Get inside the implementation: New
+			}
 			a := w.answ[0]
 			w.answ = w.answ[1:]
 			if a > n {
-				panic(fmt.Sprintf("c10: replayed answer %d but only %d pooled items", a, n))
+				a = n
 			}
 			return a
 		})
@@ -124,16 +130,21 @@ func (w *pworld) apply(o pop) (fs []F) {
 	C, L, K := cs.C, cs.L, cs.K
 	switch o.K {
 	case "get":
-		w.answ = append(w.answ, o.A)
+		w.answ = []int{o.A}
 		var g dyn.Buf
 		if pn, msg := dyn.Try(func() { g = w.pool.Get() }); pn {
 			fail("panic", "Get panicked: %s", msg)
 			return
 		}
 		ptr := g.Ptr()
-		if sh, ok := w.free[ptr]; ok {
+		if _, ok := w.free[ptr]; ok {
 			delete(w.free, ptr)
-			_ = sh
+			for i, q := range w.order {
+				if q == ptr {
+					w.order = append(append([]unsafe.Pointer{}, w.order[:i]...), w.order[i+1:]...)
+					break
+				}
+			}
 		} else if w.seenP[ptr] && cs.Real {
 			fail("conformance", "the real sync.Pool returned a buffer that is neither pooled nor new")
 			return
@@ -235,6 +246,7 @@ func (w *pworld) apply(o pop) (fs []F) {
 				return
 			}
 			w.free[p.b.Ptr()] = p
+			w.order = append(w.order, p.b.Ptr())
 			w.out = append(append([]*pbuf{}, w.out[:o.H]...), w.out[o.H+1:]...)
 			return
 		}
@@ -318,14 +330,9 @@ func (w *pworld) key() [16]byte {
 		enc(p)
 	}
 	buf = append(buf, 0xfe)
-	if w.ctl != nil {
-		for _, x := range w.ctl.AllFree() {
-			ptr := unsafe.Pointer(reflect.ValueOf(x).Pointer())
-			if p, ok := w.free[ptr]; ok {
-				enc(p)
-			} else {
-				buf = append(buf, 0xfd)
-			}
+	for _, ptr := range w.order {
+		if p, ok := w.free[ptr]; ok {
+			enc(p)
 		}
 	}
 	h := sha256.Sum256(buf)
